@@ -7,3 +7,4 @@ import NutsModel.Thm.C17
 import NutsModel.Thm.C01Refine
 import NutsModel.Thm.C16
 import NutsModel.Thm.C19Settings
+import NutsModel.Thm.C02
